@@ -177,6 +177,21 @@ Theorem C13_put_buffer_restored :
 Proof. exact @put_buffer_restored. Qed.
 Print Assumptions C13_put_buffer_restored.
 
+(* blocking put with a derived contiguous buftype: both swaps run over bnelems = bufcount * elements per buftype *)
+Theorem C13_put_buffer_restored_bnelems :
+  forall (api : putapi) (nconv nswap contig himap : bool) (h : swaphint) 
+           (nbytes : Z) (bt : btype) (buf : list byte) (xsz : Z),
+         put_blocking_buffer (put_swaps_user_buf api nconv nswap contig himap h nbytes) bt buf xsz =
+         buf.
+Proof. exact @put_buffer_restored_bnelems. Qed.
+Print Assumptions C13_put_buffer_restored_bnelems.
+
+(* swapping back over the MPI count (bufcount) instead would leave the rest of the buffer byte-swapped *)
+Theorem C13_swap_back_over_mpi_count_refuted :
+  ~ swap_back_over_mpi_count_full.
+Proof. exact @swap_back_over_mpi_count_refuted. Qed.
+Print Assumptions C13_swap_back_over_mpi_count_refuted.
+
 Theorem C13_bput_never_swaps :
   forall (nconv nswap contig himap : bool) (h : swaphint) (nbytes : Z),
          put_swaps_user_buf PBput nconv nswap contig himap h nbytes = false.
